@@ -90,16 +90,14 @@ CFG = {
             "the row-local state, bodies inside those branches again; half of these lists are <ForEnumerate> (`fore`) whose rows render their `index` signal (text, attribute, "
             "inside row-local memos), with key lists that make surviving rows leave and return to their creation index; list writes that keep, drop, add and move rows in between; a QUARTER of the remaining cases with <ErrorBoundary> (`eb`, MODELLED) over views with `Result` leaves "
             "(`res c x`: `move || if c != 0 { Err } else { Ok(x) }`) that go Ok<->Err by signal: leaves that exist from the first render, leaves inside Show / Either "
-            "branches that a later re-run creates (opened on failing content), a boundary under a Show / Either / element / next to other parts; and — once the two repairs "
-            "hooks/fix-c04-3.patch and fix-c04-4.patch are in the tree the harness is linked with (the generator probes the real code with two tiny histories; until then it stays "
-            "inside the class the unrepaired code gets right: one leaf per boundary, none in rows, `set; idle`, no write that can drop a leaf in error) — several failing leaves per "
-            "boundary, leaves in the rows of a <For> (`forr`: rows added and removed while in error), nested boundaries, leaves dropped while in error, every polling order, disposal; "
+            "branches that a later re-run creates (opened on failing content) or drops (closed while in error), a boundary under a Show / Either / element / next to other parts, "
+            "several failing leaves per boundary, leaves in the rows of a <For> (`forr`: rows added and removed while in error), nested boundaries, every polling order, disposal; "
             "a tenth of the other cases with <Suspense> (over an "
             "AsyncDerived of signals, executor run to idle between writes) or the old <ErrorBoundary>-over-Either shape at the top of the view (implementation-side oracle only, "
             "the model prints `skip`); histories of 3-15 writes with `poll i` (1-3 polls of the i-th ready task) or `idle` or nothing in between, a sixth "
             "with a disposal in the middle; plus EXHAUSTIVE schedules: 12 small programs x every poll sequence of length <= 3 over ready indices 0..2 "
             "(40 schedules, applied after each of 3 rounds of writes, forwards and backwards) = 480 cases, the same for 4 small programs with row-local / "
-            "branch-local memos = 160 cases (with the two repairs: 3 error-boundary programs more = 120 cases); the REAL leptos Show/For/Either/closures "
+            "branch-local memos = 160 cases, 3 error-boundary programs (leaf created by a Show, rows in error, nested boundary) = 120 cases; the REAL leptos Show/For/Either/closures "
             "mounted with mount_to_renderer into the native DOM on the harness executor; observable at EVERY op line = ready list + the whole DOM with "
             "node ids (renumbered by first appearance) and mutation counters; distinct = distinct op lines of a case; non-trivial = the view has a dynamic part",
     "trusted": [
@@ -123,7 +121,7 @@ CFG = {
         "built first, then the boundary's own RenderEffect over errors_empty, which only toggles between the kept children and a freshly built fallback; rebuild = build + replace) and "
         "impl Render for Result<T, E> (build / rebuild Ok<->Err: throw, clear, placeholder <-> value node; ResultState::hook; Drop for ResultState when the task that held the state ends) with the "
         "thread-local throw_error hook that impl Render for F captures at build and installs on every re-run (Model: View.eb / View.res, St.hook, RState.errb / res / hooked / errTok, bump, "
-        "underHook, clearTok). The model has the REPAIRED semantics (an error is unregistered through the hook its state was built under; ids are unique, so the register is its size): "
+        "underHook, clearTok). The model has the semantics of the code since ffdfcd9 / 6685c08 (an error is unregistered through the hook its state was built under; ids are unique, so the register is its size): "
         "F-C04-3 / F-C04-4 in props/C04.known. Abstraction: the errors map is its size. Proved: C04_errb_effect_toggles, C04_res_balance, C04_dropped_error_unregisters, C04_errb_render "
         "(what each transition does to the register and the DOM) + a kernel-checked history; that every view with boundaries settles to the fresh render is CORRESPONDENCE ONLY so far",
         "NOT modelled (implementation-side oracle only): Suspense; not exercised: Transition, OwnedView contexts, hydration",
@@ -136,9 +134,8 @@ CFG = {
         "has one reader among effect expressions and Show conditions; a `setl` stands between two `idle`; lists sit in the region of the mounted view only and such a view is not "
         "disposed mid-history (leptos For captures `Owner::current()`, which keeps that owner alive until the list's task has ended). Outside this class the real code can PANIC "
         "(F-C04-2, props/C04.known; the model predicts it: class read-disposed); the untouched-nodes oracle is not applied to these views (fresh-render oracle at every idle point is)",
-        "error boundaries: the generated class depends on the implementation at hand (two probes at generation time, harness/hx-c04/src/gen.rs EB_PROBES): with F-C04-3 / F-C04-4 present only the "
-        "class they do not reach is generated (so `./check` is quiet on the unrepaired tree and the demonstrations live in corpus/C04/F-C04-{3,4}-*.ops.pending); with both repaired the full class. "
-        "Regression for the repaired tree: rename those two files to .ops. Views with boundaries carry no component-local state (`sc`) in generated cases",
+        "error boundaries: two defects found in this class are repaired in /repo (ffdfcd9 F-C04-3, 6685c08 F-C04-4; regression cases corpus/C04/F-C04-{3,4}-*.ops; the generator does not avoid "
+        "them). Views with boundaries carry no component-local state (`sc`) in generated cases",
         "C04_settles_full is a THEOREM: for every well-formed program of the grammar (signals and memos; static structure, dynamic leaves, "
         "`move || Either`, <Show>, <For>, nested arbitrarily, every dynamic part over signals AND memos) and every history (writes, polls in any order, "
         "idle, disposal) the DOM at an idle point is the fresh render; it stands on the reactive core's state invariant TopC (C01/C02/C09 proofs) with "
